@@ -20,11 +20,13 @@ CLAIMED = {
             "The composition of the stages into 'decode(frame) == original' is argued in DESIGN.md, not machine-checked.", "DESIGN.md 4 C01, Part II"),
     "C02": ("proof", "Inverse pairs as two-contract lemmas on the real encoder/decoder functions (S1 value<->code, H1' block header, H6' sequence count, H7' modes byte, "
             "E3 frame header, E8 literals-header widths), block decision logic (E4) and frame structure incl. reuse and read fragmentation (E5, bounded sizes), "
-            "matcher truthfulness (E7, bounded). Whole-pipeline 'decode(compress(x)) == x' is not claimed; libzstd is not consulted.", "DESIGN.md 4 C02"),
+            "matcher truthfulness (E7V, Verus, unbounded: every reported sequence is a true in-window match and the sequences tile the block), BW1 (Kani, complete over "
+            "pending-word states: the BitWriter appends exactly the low bits, LSB first; change_bits/flush/dump keep every other bit). "
+            "Whole-pipeline 'decode(compress(x)) == x' is not claimed; libzstd is not consulted.", "DESIGN.md 4 C02"),
     "C03": ("proof", "Every panic site on the decode path is a proof obligation: Verus (verbatim bodies, all input sizes) proves absence of index, overflow, shift, "
             "slice and explicit panics plus termination for BRR1, F3, Q1/Q2, Q3, L1, B2, D0, R1; Kani proves the parsers total over their whole input domains "
             "(H1 H2 H5 H6) and the raw-pointer ring buffer memory-safe from arbitrary invariant states at fixed capacities (R2 R3 R4). Callee preconditions are "
-            "discharged at call sites by construction (contract stubs / external_body). FSE / Huffman table construction: F2, HU1V, HU2V (Verus, all inputs). Unverified remainder listed in evidence (dictionary parser, streaming front end).", "DESIGN.md 4 C03"),
+            "discharged at call sites by construction (contract stubs / external_body). FSE / Huffman table construction: F2, HU1V, HU2V (Verus, all inputs). FD6 (Kani, bounded lengths): the dictionary parser is total whatever the table parsers report; SD1 (Kani, bounded): streaming front end.", "DESIGN.md 4 C03"),
     "C04": ("proof", "Four layers on the real code: R1 (Verus, verbatim bodies, ALL capacities) position arithmetic and drop-front queue semantics; "
                      "R2 (Kani, real raw pointers, one step from an ARBITRARY invariant state, hence all operation histories) queue semantics, "
                      "invariant and in-allocation accesses for every operation at fixed capacities; R3/R4 (Kani) the over-copying primitive stays "
@@ -38,7 +40,8 @@ CLAIMED = {
     "C06": ("proof", "D1/D2 (Kani, real ring buffer at fixed capacities, arbitrary invariant start state, symbolic sink behaviour incl. partial acceptance and errors): "
             "every drain path hands out a prefix of the queue in order, removes exactly the accepted bytes (also on the error path) and hashes exactly those; "
             "FD1 (Kani, bounded): blocks strictly in order, exact byte accounting, strategy only decides when to return; FD7 accessors; Q3/D0 (Verus): decoding "
-            "reads the window only at distance <= offset. Schedule independence of the complete output is the composition argued in DESIGN.md.", "DESIGN.md 4 C06"),
+            "reads the window only at distance <= offset; SD1 (Kani, bounded script): StreamingDecoder::read serves min(request, available), short reads only at the end "
+            "of the frame, asks for at most the missing amount. Schedule independence of the complete output is the composition argued in DESIGN.md.", "DESIGN.md 4 C06"),
     "C07": ("proof", "FD5 (Verus, verbatim bodies, unbounded Vec sizes): DecoderScratch::reset establishes, from ANY prior state, exactly the state DecoderScratch::new "
             "creates; all table reset/reinit functions; FD4 (Kani): FrameDecoder::reset/init install fresh per-frame fields whatever the previous state was "
             "(arbitrary counters, flags, checksum, dictionary use), a rejected header leaves the old state; D2 reset; H4 reuse path.", "DESIGN.md 4 C07"),
@@ -48,10 +51,11 @@ CLAIMED = {
     "C09": ("proof", "FD4 (Kani): dictionary selected by id, missing id is DictNotProvided, frame without id sees no dictionary, force_dict; FD5 (Verus): init_from_dict "
             "installs exactly the dictionary's tables/offsets/content and reset removes all of it; D0 (Verus, unbounded): repeat_from_dict = match copy over "
             "dict ++ window incl. straddling, error iff the offset reaches before the dictionary or the window has passed; S2/Q3: hostile zero offsets resolve "
-            "to the corrupt result. The dictionary parser (FD6) is not under contract.", "DESIGN.md 4 C09"),
+            "to the corrupt result. FD6 (Kani, dictionaries of 7/8/20/26 bytes with all contents, table parsers as contract stubs with arbitrary outcomes): "
+            "id, offsets, content at the positions the format defines, table order and max logs, Ok iff complete.", "DESIGN.md 4 C09"),
     "C10": ("proof", "Exact consumption per stage: H2 (frame header length == bytes taken, every truncation is an error), H1 (3 bytes), B2 (content_size bytes), FD1 "
             "(Kani, bounded: counter == sum of header+body (+4 checksum), exactly those bytes leave the source, truncation at every cut point is an error and "
-            "never 'finished'), FD4/FD7 counters restart per frame, R2 extend_from_reader takes exactly n bytes. Multi-frame decode_all (FD3) is not under contract.", "DESIGN.md 4 C10"),
+            "never 'finished'), FD4/FD7 counters restart per frame, R2 extend_from_reader takes exactly n bytes. FD3 (Kani, bounded script): decode_all_to_vec length/capacity discipline; multi-frame decode_all in the thorough tier.", "DESIGN.md 4 C10"),
     "C11": ("proof", "Loop-free/constant-loop Kani proofs over all 256 window descriptors, all single-segment sizes, all limits and every "
                      "<= 20-byte header: exact boundary of the comparison, rejection carries (requested, limit), the reuse path reaches the "
                      "window reservation only with window <= limit (callee precondition via contract stub), clamp to the format maximum, "
@@ -66,21 +70,26 @@ CLAIMED = {
     "C13": ("proof", "Decoder side complete and unbounded in Verus on verbatim bodies: HU2V (read_weights: direct and FSE-compressed descriptions, no panic, termination, "
             "bytes used <= source, direct weights = nibbles), HU1V (build_table_from_weights for EVERY weight vector: Kraft assert, rejection of weights > 11 and "
             "of tables deeper than 11 bits, table well-formed: 2^max_bits cells each with 1..=max_bits bits), L1 (stepping stays inside the table, every literal "
-            "consumes >= 1 bit, stream split / jump table arithmetic, exactly regenerated_size literals). The encoder side (HU4: prefix code, depth <= 11, "
-            "description round trip) is not under contract; E8 covers the literals header widths and table hand-back.", "DESIGN.md 4 C13, Part II"),
+            "consumes >= 1 bit, stream split / jump table arithmetic, exactly regenerated_size literals). Encoder side: HU4D (Verus, every alphabet size 2..=256): distribute_weights is "
+            "total and Kraft-complete; the rest of HU4 (depth limiting, code assignment, description round trip) is NOT under contract; E8 covers the literals header "
+            "widths and table hand-back.", "DESIGN.md 4 C13, Part II"),
     "C14": ("proof", "Finite, loop-free functions (code tables, repeat-offset machine, block/frame/literals/sequence headers) are "
                      "proved against RFC-transcribed spec functions over their entire input domains by Kani contracts; encoder/decoder "
                      "inverse pairs are two-contract lemmas; E8 (Verus) literals-header field widths on the encoder side.", "DESIGN.md 3.2, 4 C14"),
     "C15": ("proof", "E4 (Kani, bounded sizes, symbolic contents): per block header/payload consistency, RLE only for constant blocks, raw fallback, cost <= 3 + length, "
             "compressed strictly smaller; E5 (bounded): frame structure, one last block, empty final block for exact multiples, nothing after the trailer; "
             "E3 (complete): emitted frame header parses back with a legal window >= the matcher's; H1' block header inverse; E8 literal header widths; "
-            "E7 (bounded): offsets within window and produced data.", "DESIGN.md 4 C15"),
+            "E7V (Verus, unbounded): match offsets within the retained data and the advertised window.", "DESIGN.md 4 C15"),
     "C16": ("proof", "Obligations of the block encoder under an assumed well-behaved matcher: S1 encoder maps total over the whole value ranges (unreachable! arms "
             "unreachable), H6' every sequence count, F6 (bounded) normalisation total incl. single-symbol histograms, E4 ghost-sync (no Huffman table is kept "
             "that the decoder did not receive), E8 literal header widths. Three defects of this class were found and repaired (F3 F4 F5 F8).", "DESIGN.md 4 C16, Part II 10"),
-    "C17": ("other", "BOUNDED model checking of contracts on the real matcher (Kani, debug-assertion profile so the crate's own concat_window ghost checks are "
-            "obligations): 2-3 blocks of <= 6 bytes over a 2-letter alphabet, 8-slot suffix store, window 9/12 bytes, eviction and reset: reported sequences tile "
-            "the block, replaying them reproduces it, offsets within retained data and max window, match length >= 5. Not a proof for all sizes.", "DESIGN.md 4 C17"),
+    "C17": ("proof", "E7V (Verus, verbatim bodies of MatchGenerator::new / reserve / add_data / skip_matching / next_sequence, every history of blocks, every window size): "
+            "the window holds a chronological suffix of the blocks given, window_size = retained length <= maximum, base_offset of every entry = distance to the newest "
+            "entry, stored suffix indices lie inside their entries; the property itself is the PRECONDITION OF THE CALLBACK, proved at each of the three call sites: literal "
+            "runs are exactly the unreported bytes, every match has length >= 5, lies inside one retained entry at exactly the reported distance, 1 <= distance <= retained "
+            "bytes <= maximum window, all match_len bytes equal, and each reported sequence ends where the next starts. The contracts E7V assumes of code outside Verus' "
+            "reach are Kani obligations on the real functions (SuffixStore get/insert/contains_key/key: loop-free, 8 slots; common_prefix_len and add_suffixes_till: "
+            "bounded lengths). Not covered: MatchGeneratorDriver's pool recycling closures (bounded Kani harnesses in the thorough tier only).", "DESIGN.md 4 C17, Part II 9"),
     "C18": ("proof", "IO1 (Kani, built with --no-default-features, bounded buffers): the no_std read_exact / Read for &[u8], &mut T, Take / write_all / Write impls "
             "satisfy the documented contracts of the std items they replace (Interrupted retried, EOF -> UnexpectedEof, partial writes, WriteZero equivalent); "
             "E5 under !hash: no flag, no trailer, same blocks. Byte-identity of whole outputs across builds is the substitutability argument in DESIGN.md.", "DESIGN.md 4 C18"),
